@@ -23,6 +23,7 @@ var (
 	c11Defs = []string{
 		"cport:1000", "sport:80", "cdata:aa", "sdata:bb", "protocol:udp", "chost:10.0.0.1", `ftime:"2024-01-02 1300:"`,
 		"tag:a", "tag:b", "tag:c", "service:s", "-tag:a", "tag:a tag:b", "tag:b or tag:c", "mark:m", "generated:g", "tag:a service:s",
+		"@s:tag:a sport:80", "@s:tag:b cport:@s:cport@", "@x:service:s @x:sport:80 sport:80",
 		"id:0", "id:0,1", "id:1:3", "id:2", "id:7", "id:0,9", "id:5:",
 		"cport:", "(", "cdata:(", "ftime:-1h:", `group:"@sport@"`, "sport:80 sort:id", "limit:5 sport:80", "", "tag:missing", "service:nope tag:a", "@sub:sport:80 sport:@sub:sport@",
 	}
@@ -42,7 +43,7 @@ type c11Tag struct {
 // c11Def draws a definition: half of the time one that references other tags.
 func c11Def(rt *rapid.T) string {
 	if rapid.Bool().Draw(rt, "refdef") {
-		return rapid.SampledFrom(c11Defs[7:17]).Draw(rt, "rdef")
+		return rapid.SampledFrom(c11Defs[7:20]).Draw(rt, "rdef")
 	}
 	return rapid.SampledFrom(c11Defs).Draw(rt, "def")
 }
@@ -234,7 +235,7 @@ func c11Prop(rt *rapid.T, c *vlib.Case, t *testing.T, open map[string]bool) {
 			if bootstrap {
 				arg = rapid.SampledFrom(c11Defs[:7]).Draw(rt, "bdef")
 				if _, _, isMark := parseTagName(name); isMark {
-					arg = rapid.SampledFrom(c11Defs[17:22]).Draw(rt, "bmdef")
+					arg = rapid.SampledFrom(c11Defs[20:25]).Draw(rt, "bmdef")
 				}
 			}
 			color := rapid.SampledFrom(c11Colors).Draw(rt, "color")
